@@ -5,7 +5,7 @@
 (*                                                                             *)
 (* observation: [stop, hang, callerWaiting, callerOutcome, pendingTasks,       *)
 (*   sources: Seq([started, exhausted, aclose]), hookCalls, trackedAtHook,     *)
-(*   incremental]                                                              *)
+(*   incremental, uncancelledAtStop]                                           *)
 (*   stop          - "none" | "close" | "close-before-first-pull" |            *)
 (*                   "abort-before-initial-result" | "abort-idle" |            *)
 (*                   "abort-during-pull"                                       *)
@@ -21,6 +21,11 @@ L1(o) == /\ ~o.callerWaiting
          /\ (o.stop \notin AbortStops => o.callerOutcome \in {"result", "payload", "end"})
 \* L2: quiescence is reached and nothing started by the execution is still pending
 L2(o) == ~o.hang /\ o.pendingTasks = 0
+\* L2s (reported as MODEL-DRIFT only): at the quiescent point right after the stop - before the environment completes
+\*      anything - the execution awaits no external operation any more.  Work that the library settles in the
+\*      background by design (orphans of a failed sibling) is not cancelled by a stop, so this is not demanded.
+StopsThatCancel == {"close", "abort-idle", "abort-during-pull"}
+L2s(o) == o.stop \in StopsThatCancel => o.uncancelledAtStop = 0
 \* L3: every source that was started is finished exactly once: it ran to exhaustion, or aclose() was
 \*     called - and aclose() is never called twice (closing an exhausted iterator once is harmless)
 L3(o) == \A k \in 1..Len(o.sources) :
@@ -37,4 +42,5 @@ Clause(o) ==
                        ELSE "L3-started-source-not-closed")
   ELSE IF ~L4(o) THEN (IF o.hookCalls = 0 THEN "L4-hook-never-fired" ELSE IF o.hookCalls > 1 THEN "L4-hook-fired-twice" ELSE "L4-hook-before-tracked-work-settled")
   ELSE "ok"
+Drift(o) == IF ~L2s(o) THEN "drift-awaited-operation-not-cancelled-by-the-stop" ELSE "ok"
 =============================================================================
